@@ -609,6 +609,31 @@ def _is_active_loop(node, case):
                for r in node.walk(Reference))
 
 
+def _harness_inputs_case(case):
+    """The case as PSyAD's generated harness runs it: extent NBIG, every
+    integer argument that does not dimension an array set to 1."""
+    if "bounds_big" not in case["args"][0]:
+        return None
+    psy.reset_state()
+    from psyclone.psyir.nodes import Reference, Routine
+    from psyclone.psyir.symbols import ArrayType
+    dims = set()
+    routine = psy.read(case["source"]).walk(Routine)[0]
+    for sym in routine.symbol_table.argument_datasymbols:
+        if sym.is_array:
+            for dim in sym.shape:
+                if isinstance(dim, ArrayType.ArrayBounds):
+                    for bnd in (dim.lower, dim.upper):
+                        for ref in bnd.walk(Reference):
+                            dims.add(ref.symbol.name.lower())
+    big = scaled_case(case, gen_tl.NBIG)
+    for arg in big["args"]:
+        if arg["typ"] == "int" and not arg["bounds"] and \
+                arg["name"] not in dims:
+            arg["data"] = [1]
+    return big
+
+
 def cls_zero_trip_reversed(case):
     """An active loop whose step PSyAD does not recognise as the literal
     1 or -1 executes ZERO times for the given bounds, while the reversed
@@ -631,6 +656,14 @@ def cls_zero_trip_reversed(case):
         _trace_tl(case, loop_hook=hook)
     except (I.Unsupported, I.OutOfDomain, I.InterpError):
         pass
+    if not found and str(case.get("bucket", "")).startswith("harness:"):
+        # the generated harness runs the kernel with its own inputs
+        big = _harness_inputs_case(case)
+        if big is not None:
+            try:
+                _trace_tl(big, loop_hook=hook)
+            except (I.Unsupported, I.OutOfDomain, I.InterpError):
+                pass
     return bool(found)
 
 
